@@ -538,6 +538,12 @@ func famHeap(dir string, seed int64, tier string) {
 		case cyc && !errors.Is(err, sb.MarshalError):
 			rep.violate("C18", "not-a-marshal-error", fmt.Sprintf("%v", err), desc)
 		}
+		if cyc && classOf(err) == "ECyclic" {
+			var ep sb.Path
+			if !errors.As(err, &ep) {
+				rep.violate("C18", "error-without-path", fmt.Sprintf("the cyclic-pointer error carries no path: %v", err), desc)
+			}
+		}
 		// the same graph allocated in the opposite order: whether a shared node lies below or above its
 		// ancestors in memory must not matter (acyclic graphs: DAGs with shared nodes are the interesting ones)
 		if !cyc && err == nil && len(g.cells) >= 2 {
